@@ -39,6 +39,8 @@ FIXED = [
  ("fix: the disconnect handler could wait", "C18", "TestFixedC18CloseConnectRace race=1", "WaitGroup.Wait of the disconnect handler raced with the Add calls of connect()"),
  ("fix: Create and the Where* calls read", "C18", "TestFixedC18CloseConnectRace race=1", "data race on db.api between Where/WhereAny/WhereAll/WhereCache/Create and connection set-up"),
  ("fix: modelgen failed or produced uncompilable code", "C20", "TestFixedC20EnumNames", "integer/real/boolean enums made the generator fail or emit aliases to OVSDB type names; enum strings were used verbatim in identifiers and unescaped in literals"),
+ ("fix: ValidateCondition panics on enum columns", "C08", "TestFixedC08APIEnumAndModelOrder", "WhereAll/WhereAny (mapper.NewCondition) with a condition on an enum column panicked with 'Unsupported Type'"),
+ ("fix: RowsByModels looks a model up by its indexes", "C08", "TestFixedC08APIEnumAndModelOrder", "Where(models...): a model whose uuid was already found through an earlier model fell through to the index search, so the selection depended on the order of the models"),
  ("fix: commit, comment and assert", "C19", "TestFixedC19DegenerateOps", "commit/comment/assert operations carrying a table but not their member dereferenced nil"),
 ]
 log = subprocess.run(["git","-C","/repo","log","--format=%h %s"],capture_output=True,text=True).stdout.splitlines()
